@@ -3,7 +3,7 @@
     ARBITRARY coefficient values; psat / pb23 are the values the traced sat / b23p compute. *)
 From Coq Require Import ZArith QArith Qreals Reals List.
 From Gen Require Import GenIAPWS GenTraced.
-From P Require Import Expr RunR SatInv B23 Region.
+From P Require Import Expr RunR Formulas Region.
 Import ListNotations.
 Close Scope Q_scope.
 Open Scope R_scope.
